@@ -877,3 +877,395 @@ Proof.
   - apply forallb_forall. intros m I1. apply in_map_iff in I1. destruct I1 as [i [E I1]]. apply in_seq in I1.
     apply zmem_In. apply C. lia.
 Qed.
+
+(* ================================================================== monitor_accepts_model
+   Every implementation trace the model accepts ([agree_from]) passes the monitor.  So a monitor
+   failure on an implementation trace is a behaviour the model excludes. *)
+
+(* ---- decoding the boolean equalities ---- *)
+Lemma zeq_spec : forall a b : Z, (a =? b) = true <-> a = b.
+Proof. intros. apply Z.eqb_eq. Qed.
+
+Lemma beq_spec : forall a b : bool, Bool.eqb a b = true <-> a = b.
+Proof. intros. apply Bool.eqb_true_iff. Qed.
+
+Lemma lines_eqb_spec a b : lines_eqb a b = true <-> a = b.
+Proof. unfold lines_eqb. apply list_eqb_spec. intros x y. apply (pair_eqb_spec Z.eqb Z.eqb zeq_spec zeq_spec). Qed.
+
+Lemma res_eqb_eq a b : res_eqb a b = true -> a = b.
+Proof.
+  destruct a as [|x|x], b as [|y|y]; cbn [res_eqb]; intro H; try discriminate H; try reflexivity.
+  - f_equal. revert H. apply option_eqb_spec. apply pair_eqb_spec; apply zeq_spec.
+  - f_equal. revert H. apply option_eqb_spec.
+    repeat (apply pair_eqb_spec; try apply zeq_spec).
+Qed.
+
+Lemma dump_eqb_eq a b : dump_eqb a b = true -> a = b.
+Proof.
+  destruct a as [[sa la] va], b as [[sb lb0] vb]. cbn [dump_eqb]. intro H.
+  apply andb_true_iff in H. destruct H as [H H3]. apply andb_true_iff in H. destruct H as [H1 H2].
+  assert (sa = sb).
+  { revert H1. apply list_eqb_spec. repeat (apply pair_eqb_spec; try apply zeq_spec). }
+  assert (la = lb0).
+  { revert H2. apply list_eqb_spec. apply pair_eqb_spec; [apply zeq_spec | apply lines_eqb_spec]. }
+  assert (va = vb).
+  { revert H3. apply list_eqb_spec. repeat (apply pair_eqb_spec; try apply zeq_spec; try apply beq_spec). }
+  subst. reflexivity.
+Qed.
+
+Lemma wf_b_spec h : wf_b h = true <-> wf h.
+Proof.
+  unfold wf_b, wf. rewrite andb_true_iff, nodupb_NoDup, forallb_forall, Forall_forall.
+  split; intros [A B]; (split; [exact A|]); intros x I1; specialize (B x I1); lia.
+Qed.
+
+(* ---- a dump determines the state ---- *)
+Definition keys_ok (s : st) : Prop := forall k o, In (k, o) (scenes s) -> osid o = k.
+
+Lemma st_of_dump_of s : keys_ok s -> st_of_dump (dump_of s) (now s) (nextid s) = s.
+Proof.
+  intro K. destruct s as [sc ln sv n i]. unfold keys_ok in K. cbn [scenes] in K.
+  unfold dump_of, st_of_dump. cbn [scenes lines services now nextid]. f_equal.
+  - rewrite map_map. rewrite <- (map_id sc) at 2. apply map_ext_in. intros [k o] I1. cbn [fst snd].
+    rewrite <- (K k o I1). destruct o; reflexivity.
+  - rewrite map_map. rewrite <- (map_id sv) at 2. apply map_ext. intros [k t]. cbn [fst snd].
+    destruct t; reflexivity.
+Qed.
+
+Lemma aset_In_inv {V} k (v : V) m x : In x (aset k v m) -> x = (k, v) \/ In x m.
+Proof.
+  induction m as [|[k' v'] r IH]; cbn [aset In]; [intros [E|[]]; left; symmetry; exact E|].
+  destruct (k <? k'); [cbn [In]; intros [E|H]; [left; symmetry; exact E | right; exact H]|].
+  destruct (k =? k'); cbn [In].
+  - intros [E|H]; [left; symmetry; exact E | right; right; exact H].
+  - intros [E|H]; [right; left; exact E|]. destruct (IH H) as [E|H2]; [left; exact E | right; right; exact H2].
+Qed.
+
+Lemma end_scene_keys s sid : keys_ok s -> keys_ok (end_scene s sid).
+Proof.
+  intros K k o. unfold end_scene. destruct (aget sid (scenes s)); [|apply K].
+  cbn [scenes]. rewrite adel_filter. intro I1. apply filter_In in I1. apply K. apply I1.
+Qed.
+
+Lemma ends_keys L : forall s, keys_ok s -> keys_ok (fold_left end_scene L s).
+Proof. induction L as [|x L IH]; intros s K; [exact K|]. cbn [fold_left]. apply IH. apply end_scene_keys. exact K. Qed.
+
+Lemma lost_keys s svc : keys_ok s -> keys_ok (lost s svc).
+Proof. intro K. unfold lost. destruct (aget svc (services s)); apply ends_keys; exact K. Qed.
+
+Lemma tick_one_keys s svc : keys_ok s -> keys_ok (tick_one s svc).
+Proof.
+  intro K. unfold tick_one. destruct (aget svc (services s)) as [t|]; [|exact K].
+  destruct (expired s t); [|exact K]. cbv zeta.
+  destruct (3 <? sfail (mkstat (snum t) true (now s) (sfail t + 1))); [apply lost_keys|]; exact K.
+Qed.
+
+Lemma tick_keys s : keys_ok s -> keys_ok (tick s).
+Proof.
+  unfold tick. generalize (akeys (services s)). intro L. revert s.
+  induction L as [|x L IH]; intros s K; [exact K|]. cbn [fold_left]. apply IH. apply tick_one_keys. exact K.
+Qed.
+
+Lemma step_keys s o : keys_ok s -> keys_ok (fst (step s o)).
+Proof.
+  intro K. destruct o as [cfg sid svc|sid|svc n| |dt|svc|cfg|cfg]; cbn [step fst]; try exact K.
+  - intros k o I1. unfold create in I1. cbn [scenes] in I1. apply aset_In_inv in I1.
+    destruct I1 as [E|I1]; [inv E; reflexivity | apply K; exact I1].
+  - apply end_scene_keys. exact K.
+  - apply tick_keys. exact K.
+  - apply lost_keys. exact K.
+  - destruct (idle_set s); exact K.
+Qed.
+
+(* ---- more alist facts ---- *)
+Lemma adel_absent' {V} k (m : alist V) : aget k m = None -> adel k m = m.
+Proof.
+  induction m as [|[k' v] r IH]; cbn [aget adel]; [reflexivity|].
+  destruct (k =? k'); [discriminate|]. intro H. f_equal. apply IH. exact H.
+Qed.
+
+Lemma adel_aset_absent {V} k (v : V) m : aget k m = None -> adel k (aset k v m) = m.
+Proof.
+  induction m as [|[k' v'] r IH]; cbn [aget aset]; intro H.
+  - cbn [adel]. rewrite Z.eqb_refl. reflexivity.
+  - destruct (Z.eqb_spec k k') as [E|NE]; [discriminate H|].
+    destruct (k <? k').
+    + cbn [adel]. rewrite Z.eqb_refl. destruct (Z.eqb_spec k k'); [contradiction|].
+      f_equal. apply adel_absent'. exact H.
+    + cbn [adel]. destruct (Z.eqb_spec k k'); [contradiction|]. f_equal. apply IH. exact H.
+Qed.
+
+Lemma lb_aget {V} k j (m : alist V) v : lb k m -> aget j m = Some v -> k < j.
+Proof.
+  induction m as [|[k' v'] r IH]; cbn [lb aget]; [discriminate|]. intros [L1 L2].
+  destruct (Z.eqb_spec j k') as [->|NE]; [intros _; exact L1 | apply IH; exact L2].
+Qed.
+
+Lemma sorted_ext {V} (a : alist V) : forall b, sorted a -> sorted b ->
+  (forall k, aget k a = aget k b) -> a = b.
+Proof.
+  induction a as [|[k v] ra IH]; intros [|[k' v'] rb] SA SB E.
+  - reflexivity.
+  - specialize (E k'). cbn [aget] in E. rewrite Z.eqb_refl in E. discriminate E.
+  - specialize (E k). cbn [aget] in E. rewrite Z.eqb_refl in E. discriminate E.
+  - cbn [sorted] in SA, SB. destruct SA as [LA SA]. destruct SB as [LB SB].
+    assert (k = k').
+    { pose proof (E k) as E1. pose proof (E k') as E2. cbn [aget] in E1, E2. rewrite Z.eqb_refl in E1, E2.
+      destruct (Z.eqb_spec k k') as [|NE]; [assumption|].
+      destruct (Z.eqb_spec k' k) as [|NE2]; [congruence|].
+      symmetry in E1. pose proof (lb_aget _ _ _ _ LB E1). pose proof (lb_aget _ _ _ _ LA E2). lia. }
+    subst k'. pose proof (E k) as E1. cbn [aget] in E1. rewrite Z.eqb_refl in E1. inv E1. f_equal.
+    apply IH; [exact SA | exact SB|]. intro j. destruct (Z.eq_dec j k) as [->|NE].
+    + rewrite (lb_not_in _ _ LA), (lb_not_in _ _ LB). reflexivity.
+    + specialize (E j). cbn [aget] in E. destruct (Z.eqb_spec j k); [contradiction | exact E].
+Qed.
+
+Lemma amap_lb {V} (f : V -> V) k (m : alist V) : lb k m -> lb k (map (fun kt => (fst kt, f (snd kt))) m).
+Proof. induction m as [|[k' v] r IH]; cbn [lb map fst snd]; [tauto|]. intros [L1 L2]. split; [exact L1 | apply IH; exact L2]. Qed.
+
+Lemma amap_sorted {V} (f : V -> V) (m : alist V) : sorted m -> sorted (map (fun kt => (fst kt, f (snd kt))) m).
+Proof.
+  induction m as [|[k v] r IH]; cbn [sorted map fst snd]; [tauto|]. intros [L S].
+  split; [apply amap_lb; exact L | apply IH; exact S].
+Qed.
+
+Lemma amap_aget {V} (f : V -> V) k (m : alist V) :
+  aget k (map (fun kt => (fst kt, f (snd kt))) m) = option_map f (aget k m).
+Proof.
+  induction m as [|[k' v] r IH]; cbn [aget map fst snd]; [reflexivity|].
+  destruct (k =? k'); [reflexivity | exact IH].
+Qed.
+
+Lemma stat_eqb_refl t : stat_eqb t t = true.
+Proof. unfold stat_eqb. rewrite !Z.eqb_refl, Bool.eqb_reflx. reflexivity. Qed.
+
+Lemma same_services_refl s s' : services s' = services s -> same_services_b s s' = true.
+Proof. intro E. unfold same_services_b. rewrite E. apply alist_eqb_refl. apply stat_eqb_refl. Qed.
+
+Lemma same_world_refl s s' : scenes s' = scenes s -> lines s' = lines s -> same_world_b s s' = true.
+Proof.
+  intros E1 E2. unfold same_world_b. rewrite E1. rewrite (alist_eqb_refl _ _ obj_eqb_refl). cbn [andb].
+  apply forallb_forall. intros cfg _. unfold lines_of. rewrite E2. apply lines_eqb_refl.
+Qed.
+
+Lemma filter_line_insert ln sid l :
+  (forall e, In e l -> snd e <> sid) ->
+  filter (fun e => negb (snd e =? sid)) (line_insert (ln, sid) l) = l.
+Proof.
+  induction l as [|x r IH]; intro H; cbn [line_insert filter fst snd].
+  - rewrite Z.eqb_refl. reflexivity.
+  - assert (HX : negb (snd x =? sid) = true).
+    { apply negb_true_iff. apply Z.eqb_neq. apply H. left. reflexivity. }
+    destruct (ln <? fst x); cbn [filter snd].
+    + rewrite Z.eqb_refl. cbn [negb]. rewrite HX. f_equal. apply filter_id. intros e I1.
+      apply negb_true_iff. apply Z.eqb_neq. apply H. right. exact I1.
+    + rewrite HX. f_equal. apply IH. intros e I1. apply H. right. exact I1.
+Qed.
+
+(* ---- one step of the invariant, the clock and the id allocator ---- *)
+Lemma fresh_not_live h s cfg sid svc :
+  J h s -> wf (h ++ [OCreate cfg sid svc]) -> aget sid (scenes s) = None.
+Proof.
+  intros [C L] [N _]. rewrite created_snoc in N. apply NoDup_remove_2 in N. rewrite app_nil_r in N.
+  destruct (aget sid (scenes s)) as [o'|] eqn:A; [|reflexivity]. exfalso. apply N. apply (L _ _ A).
+Qed.
+
+Lemma step_J h s o : J h s -> wf (h ++ [o]) -> J (h ++ [o]) (fst (step s o)).
+Proof.
+  intros JJ W. pose proof JJ as [C L]. destruct (is_create o) eqn:IC.
+  - destruct o as [cfg sid svc|sid|svc n| |dt|svc|cfg|cfg]; try discriminate IC.
+    pose proof (fresh_not_live _ _ _ _ _ JJ W) as NL.
+    cbn [step fst]. split; [apply create_consistent; assumption|].
+    intros sid' o' H. rewrite created_snoc. apply in_or_app. unfold create in H. cbn [scenes] in H.
+    destruct (Z.eq_dec sid' sid) as [->|NE]; [right; left; reflexivity|].
+    rewrite aget_aset_other in H by exact NE. left. apply (L _ _ H).
+  - split; [apply step_consistent; assumption|].
+    intros sid' o' H. rewrite created_snoc. apply in_or_app. left.
+    apply (L sid' o'). apply (step_live_sub _ _ _ _ IC C H).
+Qed.
+
+Lemma step_now s o : Consistent s -> now (fst (step s o)) = next_clk (now s) o.
+Proof.
+  intro C. destruct o as [cfg sid svc|sid|svc n| |dt|svc|cfg|cfg]; cbn [step fst next_clk]; try reflexivity.
+  - apply (end_scene_exact s sid C).
+  - destruct (tick_exact s C) as [_ [[_ [_ [N _]]] _]]. exact N.
+  - destruct (lost_exact s svc C) as [_ [[_ [_ [N _]]] _]]. exact N.
+  - destruct (idle_set s); reflexivity.
+Qed.
+
+Lemma req_results_shape s cfg rs : In rs (req_results s cfg) -> exists r, rs = RReq r.
+Proof.
+  unfold req_results. destruct (aget cfg (lines s)) as [[|e l]|].
+  - intros [<-|[]]. exists None. reflexivity.
+  - intro I1. apply in_map_iff in I1. destruct I1 as [x [<- _]]. unfold req_of.
+    destruct (snd x =? 0); [exists None; reflexivity|].
+    destruct (aget (snd x) (scenes s)) as [o|]; [eexists; reflexivity | exists None; reflexivity].
+  - intros [<-|[]]. exists None. reflexivity.
+Qed.
+
+Lemma step_nid s o rs : Consistent s -> In rs (snd (step s o)) ->
+  nextid (fst (step s o)) = next_nid (nextid s) rs.
+Proof.
+  intros C. destruct o as [cfg sid svc|sid|svc n| |dt|svc|cfg|cfg]; cbn [step fst snd].
+  - intros [<-|[]]. reflexivity.
+  - intros [<-|[]]. apply (end_scene_exact s sid C).
+  - intros [<-|[]]. reflexivity.
+  - intros [<-|[]]. destruct (tick_exact s C) as [_ [[_ [_ [_ N]]] _]]. exact N.
+  - intros [<-|[]]. reflexivity.
+  - intros [<-|[]]. destruct (lost_exact s svc C) as [_ [[_ [_ [_ N]]] _]]. exact N.
+  - destruct (idle_set s) as [|a l]; cbn [fst snd].
+    + intros [<-|[]]. reflexivity.
+    + intro I1. apply in_map_iff in I1. destruct I1 as [x [<- _]]. reflexivity.
+  - intro I1. destruct (req_results_shape _ _ _ I1) as [r ->]. reflexivity.
+Qed.
+
+(* ---- the model's step passes the per-operation check ---- *)
+Lemma op_ok_model h s o rs :
+  J h s -> wf (h ++ [o]) -> In rs (snd (step s o)) ->
+  op_ok s (fst (step s o)) (nextid s) o rs = true.
+Proof.
+  intros JJ W IN. pose proof JJ as [C L]. pose proof (wf_snoc _ _ W) as W0.
+  destruct o as [cfg sid svc|sid|svc n| |dt|svc|cfg|cfg]; cbn [step fst snd] in *.
+  - (* OnSceneCreateSucc *)
+    destruct IN as [<-|[]]. pose proof (fresh_not_live _ _ _ _ _ JJ W) as NL.
+    set (ln := fine_idle (lines_of s cfg)).
+    assert (F1 : aget sid (scenes (create s cfg sid svc)) = Some (mkobj cfg ln svc sid))
+      by (unfold create; cbn [scenes]; apply aget_aset_same).
+    assert (F2 : lines_of (create s cfg sid svc) cfg = line_insert (ln, sid) (lines_of s cfg))
+      by (unfold create; rewrite lines_of_set; apply lget_aset_same).
+    assert (F3 : forall c, c <> cfg -> lines_of (create s cfg sid svc) c = lines_of s c)
+      by (intros c NE; unfold create; rewrite lines_of_set; apply lget_aset_other; exact NE).
+    assert (Hc : least_free_b (lines_of s cfg) ln = true)
+      by (apply least_free_b_complete; apply fine_idle_least; apply C).
+    assert (Hd : lines_eqb (filter (fun e => negb (snd e =? sid)) (lines_of (create s cfg sid svc) cfg))
+                           (lines_of s cfg) = true).
+    { rewrite F2, filter_line_insert; [apply lines_eqb_refl|].
+      intros [ln' sid'] I1 E. cbn [snd] in E. subst sid'.
+      destruct (c_line_scene s C _ _ _ I1) as [o' [A _]]. congruence. }
+    assert (He : existsb (line_eqb (ln, sid)) (lines_of (create s cfg sid svc) cfg) = true).
+    { rewrite F2. apply existsb_exists. exists (ln, sid).
+      split; [apply line_insert_In; left; reflexivity | apply line_eqb_refl]. }
+    assert (Hf : alist_eqb obj_eqb (filter (fun ko => negb (fst ko =? sid)) (scenes (create s cfg sid svc)))
+                           (scenes s) = true).
+    { rewrite <- adel_filter. unfold create. cbn [scenes]. rewrite adel_aset_absent by exact NL.
+      apply alist_eqb_refl. apply obj_eqb_refl. }
+    assert (Hg : forallb (fun c => (c =? cfg) || lines_eqb (lines_of (create s cfg sid svc) c) (lines_of s c))
+                         (cfg_keys s (create s cfg sid svc)) = true).
+    { apply forallb_forall. intros c _. destruct (Z.eqb_spec c cfg) as [|NE]; [reflexivity|].
+      rewrite (F3 c NE). apply lines_eqb_refl. }
+    assert (Hh : same_services_b s (create s cfg sid svc) = true) by (apply same_services_refl; reflexivity).
+    cbn [op_ok]. rewrite F1. cbn [ocfg osvc oline]. rewrite !Z.eqb_refl, Hc, Hd, He, Hf, Hg, Hh. reflexivity.
+  - (* OnSceneEnd *)
+    destruct IN as [<-|[]]. destruct (end_scene_exact s sid C) as [E1 [E2 [E3 [E4 [E5 _]]]]].
+    cbn [op_ok]. apply andb_true_iff. split; [|apply same_services_refl; exact E3].
+    apply removed_exactly_b_complete. split; [rewrite E1; apply adel_filter|]. split; [exact E2 | split; assumption].
+  - (* OnServiceRefresh *)
+    destruct IN as [<-|[]]. cbn [op_ok]. apply andb_true_iff. split; [apply same_world_refl; reflexivity|].
+    unfold refresh. cbn [services]. apply alist_eqb_refl. apply stat_eqb_refl.
+  - (* the 1 s timer *)
+    destruct IN as [<-|[]]. destruct (tick_exact s C) as [C' [R S]].
+    cbn [op_ok]. apply andb_true_iff. split; [exact (removed_exactly_b_complete _ _ _ R)|].
+    replace (services (tick s)) with (map (fun kt => (fst kt, tick_stat s (snd kt))) (services s)).
+    + apply alist_eqb_refl. apply stat_eqb_refl.
+    + symmetry. apply sorted_ext; [apply C' | apply amap_sorted; apply C|].
+      intro k. rewrite S, amap_aget. reflexivity.
+  - (* clock *)
+    destruct IN as [<-|[]]. cbn [op_ok]. apply andb_true_iff.
+    split; [apply same_world_refl; reflexivity | apply same_services_refl; reflexivity].
+  - (* service lost *)
+    destruct IN as [<-|[]]. destruct (lost_exact s svc C) as [_ [R S]].
+    cbn [op_ok]. apply andb_true_iff. split; [exact (removed_exactly_b_complete _ _ _ R)|].
+    rewrite S. unfold lost_services. apply alist_eqb_refl. apply stat_eqb_refl.
+  - (* AllocScene *)
+    destruct (idle_set s) as [|a l] eqn:IS; cbn [fst snd] in *.
+    + destruct IN as [<-|[]]. cbn [op_ok].
+      rewrite (same_world_refl s s eq_refl eq_refl), (same_services_refl s s eq_refl). cbn [andb].
+      apply forallb_forall. intros [k t] I1. cbn [snd]. apply negb_true_iff.
+      apply (idle_set_nil s IS k t). apply in_aget; [apply C | exact I1].
+    + apply in_map_iff in IN. destruct IN as [x [<- I1]]. cbn [op_ok].
+      rewrite same_world_refl by reflexivity. rewrite same_services_refl by reflexivity.
+      rewrite Z.eqb_refl. cbn [andb]. rewrite andb_true_r.
+      apply idlest_b_complete; [apply C|]. apply idle_set_spec; [apply C|]. rewrite IS. exact I1.
+  - (* ReqSceneByCfgId *)
+    assert (NZ : forall sid o, aget sid (scenes s) = Some o -> sid <> 0).
+    { intros sid o A. destruct W0 as [_ F]. rewrite Forall_forall in F. specialize (F sid (L _ _ A)). lia. }
+    destruct (req_spec s cfg rs C NZ IN) as [[-> NONE]|[sid [o [A [B ->]]]]]; cbn [op_ok].
+    + rewrite (same_world_refl s s eq_refl eq_refl), (same_services_refl s s eq_refl). cbn [andb].
+      apply forallb_forall. intros [k o] I1. cbn [snd]. apply negb_true_iff. apply Z.eqb_neq. intro E.
+      apply (NONE k). exists o. split; [apply in_aget; [apply C | exact I1] | exact E].
+    + rewrite (same_world_refl s s eq_refl eq_refl), (same_services_refl s s eq_refl). cbn [andb].
+      rewrite Z.eqb_refl, A. cbn [andb]. destruct (c_scene_line s C _ _ A) as [OS _].
+      unfold obj_eqb. cbn [ocfg oline osvc osid]. rewrite B, OS, !Z.eqb_refl. reflexivity.
+Qed.
+
+(* ---- along a whole trace ---- *)
+Lemma monitor_model ops : forall hist s d clk nid bs,
+  (wf hist -> J hist s /\ keys_ok s /\ d = dump_of s /\ clk = now s /\ nid = nextid s) ->
+  agree_from s ops bs = true -> monitor_from hist d clk nid ops bs = true.
+Proof.
+  induction ops as [|o r IH]; intros hist s d clk nid bs INV AG;
+    destruct bs as [|[rs d'] br]; cbn [agree_from] in AG; try discriminate AG; [reflexivity|].
+  destruct (step s o) as [s1 adm] eqn:ST.
+  assert (S1 : s1 = fst (step s o)) by (rewrite ST; reflexivity).
+  assert (AD : adm = snd (step s o)) by (rewrite ST; reflexivity).
+  apply andb_true_iff in AG. destruct AG as [AG AG3]. apply andb_true_iff in AG. destruct AG as [AG1 AG2].
+  apply existsb_exists in AG1. destruct AG1 as [r0 [I0 E0]]. apply res_eqb_eq in E0. subst r0.
+  apply dump_eqb_eq in AG2. subst d'.
+  assert (STEP : wf (hist ++ [o]) ->
+                 J (hist ++ [o]) s1 /\ keys_ok s1 /\ next_clk clk o = now s1 /\ next_nid nid rs = nextid s1 /\
+                 J hist s /\ keys_ok s /\ d = dump_of s /\ clk = now s /\ nid = nextid s).
+  { intro W. destruct (INV (wf_snoc _ _ W)) as [JJ [K [D [CK NI]]]]. subst d clk nid.
+    pose proof JJ as [C _]. rewrite S1.
+    split; [apply step_J; assumption|]. split; [apply step_keys; exact K|].
+    split; [symmetry; apply step_now; exact C|].
+    split; [symmetry; apply step_nid; [exact C | rewrite <- AD; exact I0]|]. auto. }
+  cbn [monitor_from]. cbv zeta. apply andb_true_iff. split.
+  - destruct (wf_b (hist ++ [o])) eqn:G; [|reflexivity]. cbn [negb orb]. apply wf_b_spec in G.
+    destruct (STEP G) as [J1 [K1 [CK1 [NI1 [JJ [K [D [CK NI]]]]]]]]. subst d clk nid.
+    rewrite CK1, NI1. rewrite (st_of_dump_of s K), (st_of_dump_of s1 K1).
+    apply andb_true_iff. split; [apply consistent_b_complete; apply J1|].
+    rewrite S1. apply (op_ok_model hist); [exact JJ | exact G | rewrite <- AD; exact I0].
+  - apply (IH (hist ++ [o]) s1); [|exact AG3].
+    intro W. destruct (STEP W) as [J1 [K1 [CK1 [NI1 _]]]]. auto.
+Qed.
+
+Lemma monitor_accepts_model h bs : agree_from init h bs = true -> monitor_trace h bs = true.
+Proof.
+  intro AG. unfold monitor_trace. apply (monitor_model h [] init); [|exact AG].
+  intros _. split; [split; [exact Consistent_init | intros sid o H; discriminate H]|].
+  split; [intros k o []|]. repeat split.
+Qed.
+
+(* ---- the model's own trace ---- *)
+Lemma res_eqb_refl r : res_eqb r r = true.
+Proof.
+  destruct r as [|x|x]; cbn [res_eqb]; [reflexivity | |].
+  - apply option_eqb_spec; [apply pair_eqb_spec; apply zeq_spec | reflexivity].
+  - apply option_eqb_spec; [repeat (apply pair_eqb_spec; try apply zeq_spec) | reflexivity].
+Qed.
+
+Lemma dump_eqb_refl d : dump_eqb d d = true.
+Proof.
+  destruct d as [[a b] c]. cbn [dump_eqb]. apply andb_true_iff. split; [apply andb_true_iff; split|].
+  - apply list_eqb_spec; [repeat (apply pair_eqb_spec; try apply zeq_spec) | reflexivity].
+  - apply list_eqb_spec; [apply pair_eqb_spec; [apply zeq_spec | apply lines_eqb_spec] | reflexivity].
+  - apply list_eqb_spec; [repeat (apply pair_eqb_spec; try apply zeq_spec; try apply beq_spec) | reflexivity].
+Qed.
+
+Lemma step_adm_nonempty s o : snd (step s o) <> [].
+Proof.
+  destruct o as [cfg sid svc|sid|svc n| |dt|svc|cfg|cfg]; cbn [step snd]; try discriminate.
+  - destruct (idle_set s); cbn [snd map]; discriminate.
+  - unfold req_results. destruct (aget cfg (lines s)) as [[|e l]|]; cbn [map]; discriminate.
+Qed.
+
+Lemma run_obs_agrees ops : forall s, agree_from s ops (run_obs s ops) = true.
+Proof.
+  induction ops as [|o r IH]; intro s; [reflexivity|]. cbn [run_obs].
+  pose proof (step_adm_nonempty s o) as NE. destruct (step s o) as [s1 adm] eqn:ST. cbn [snd] in NE.
+  cbn [agree_from]. rewrite ST. rewrite dump_eqb_refl, IH, !andb_true_r.
+  destruct adm as [|r0 adm']; [congruence|]. cbn [pick existsb]. rewrite res_eqb_refl. reflexivity.
+Qed.
+
+Lemma monitor_accepts_run h : monitor_trace h (run h) = true.
+Proof. apply monitor_accepts_model. apply run_obs_agrees. Qed.
